@@ -58,6 +58,16 @@ def r22(F):
             through = calls_in(labs) & {SINGLE, DOUBLE}
             raw = ("variant", "Str") in oq.at(t["args"][0], b)
             ok = bool(through) and not raw
+            # nothing else rewrites the text on its way (before or after the helper): the helpers' tables are exact for POSIX
+            # quoting, any further replacement (e.g. newline -> '$'\\n'', a bash extension) changes what /bin/sh reads
+            REWRITERS = ("replace", "replacen", "trim", "trim_start", "trim_end", "to_lowercase", "to_uppercase", "split", "lines",
+                         "escape_default", "escape_debug", "repeat", "chars", "bytes", "truncate", "retain", "strip_prefix", "strip_suffix")
+            rew = sorted(x.split("::")[-1] for x in calls_in(labs) if x.split("::")[-1] in REWRITERS)
+            if ok and rew:
+                r.inst("sink:%s" % n.split("::")[-1].rstrip(">"), fn.where(b), False,
+                       "the string is also passed through %s outside the quoting helper: what the shell reads is no longer the helper's "
+                       "POSIX quoting (a `'$'\\n''` rewrite is understood by bash but not by /bin/sh)" % ", ".join(rew))
+                continue
             r.inst("sink:%s" % n.split("::")[-1].rstrip(">"), fn.where(b), ok,
                    "string value formatted only through %s" % sorted(x.split("::")[-1] for x in through) if ok else
                    "a Val::Str payload reaches the output without a shell-escape helper: quotes, $, ` or spaces in the value are "
